@@ -89,6 +89,21 @@ CHECKS = {
         "no source change). Whether the optimiser finds the optimum is not checked. Small 3-taxon problems.",
         technique="TLA+ nested-projection theorem (TLC exact) + spec->code replay; code->spec trace validation of optimiser runs",
     ),
+    "C18": dict(
+        category="model_checking",
+        text="PairAlign.tla enumerates every alignment path (global; local = contiguous parts, M...M) of every sequence pair within "
+        "the bounds together with the rows it denotes and the sufficient statistics of the pair-HMM score; TLC checks the path space is "
+        "well formed (rows degap to the consumed parts, equal length, no all-gap column). For seeded scoring systems the harness scores "
+        "every path and requires of global_pairwise/local_pairwise: returned rows are one of the spec's paths, reported score = that "
+        "path's score, no path scores higher, and forced Hirschberg agrees with full DP. RefMerge.tla enumerates sets of pairwise gap "
+        "layouts against a reference; real pairwise_to_multiple outputs are validated against RefMerge!Valid by TLC. Progressive / "
+        "align_to_ref outputs are validated structurally.",
+        design_ref="DESIGN.md section 2 / C18",
+        note="Trusted: TLC; path scores (ln, dot product, max) are float work in the harness over TLC's complete path set; transition "
+        "matrix and start probabilities come from cogent3's own classic_gap_scores (the aligner's own model). Sequences of length <= 3 "
+        "over 2-3 letters. Progressive alignment optimality not defined/checked; codon/protein aligners structural only.",
+        technique="TLA+ path-space enumeration (TLC) + conformance of real aligners; TLC validation of merged alignments against a relation",
+    ),
 }
 
 PENDING = {}
